@@ -35,6 +35,50 @@ def approx_eq_guards(S, cv, guards):
     return out
 
 
+def axis_nonzero(axis, a, eqs):
+    """axis = w / sqrt(w.w) with w built from the input a.  Decide that w != 0 whenever a != 0 from what the path tested:
+    (i) some component of w (or w.w) was compared with zero and found different, or (ii) the quantities found equal to zero
+    on the path (single components, or sums of squares) substituted as zeros turn w.w into a.a."""
+    K = A.CTX.kind
+    roots = set()
+    for x in axis:
+        for m in x.t:
+            for v, e in m:
+                if K[v][0] == 'sqrt' and e < 0:
+                    roots.add(v)
+    if not roots:
+        return A.eq(A.dot(axis, axis), ONE), 'axis is not normalised on this path'
+    if len(roots) != 1:
+        return False, 'several radicals in the axis'
+    sq_ = list(roots)[0]
+    N = K[sq_][1]
+    w = [(x * El.a(sq_)).norm() for x in axis]
+    zero = {}
+    for g_, truth in eqs:
+        E = (g_['a'] - g_['b']).norm()
+        if E.zero():
+            if not truth:
+                return True, 'infeasible path (0 == 0 found false)'
+            continue
+        if not truth:
+            if any((not wi.zero()) and (A.eq(E, wi) or A.eq(E, -wi)) for wi in w) or A.eq(E, N):
+                return True, 'tested non-zero: %s' % g_['text'][:80]
+            continue
+        # found equal to zero on this path
+        if len(E.t) == 1:
+            (m, c), = E.t.items()
+            if len(m) == 1 and m[0][1] >= 1 and K[m[0][0]][0] == 'base':
+                zero[m[0][0]] = ZERO
+        elif all(len(m) == 1 and m[0][1] == 2 and c > 0 and K[m[0][0]][0] == 'base' for m, c in E.t.items()):
+            for m in E.t:
+                zero[m[0][0]] = ZERO
+    Ns = A.substitute(N, zero).norm()
+    a2 = A.substitute(A.dot(a, a), zero).norm()
+    if not Ns.zero() and A.eq(Ns, a2):
+        return True, 'components tested zero force |w|^2 = |a|^2'
+    return False, '|w|^2 = %s under the zero tests of the path; no component of w tested non-zero' % A.show(Ns, 6)
+
+
 def check_arc(run, S, name, spec, kw):
     which = spec[1]
     r = run.use_root(S, name)
@@ -121,6 +165,9 @@ def check_arc(run, S, name, spec, kw):
                 run.ob(key + ':perpendicular', A.eq(perp, ZERO), rule='K4', expected='axis . a = 0 identically', found=A.show(perp.norm(), 4), where=where)
                 n2 = A.dot(axis, axis)
                 run.ob(key + ':unit-axis', A.eq(n2, ONE), rule='K4', expected='|axis| = 1', found=A.show(n2.norm(), 4), where=where)
+                nz, why = axis_nonzero(axis, a, eqs)
+                run.ob(key + ':nonzero-axis', nz, rule='K5', expected='the axis normalised on this path is non-zero for every non-zero a: one of its components was tested non-zero on the path, or the components tested zero on the path force |w|^2 = |a|^2',
+                       found=why, where=where)
         else:
             kinds['general'] = kinds.get('general', 0) + 1
             run.ob(key + ':general-guards', bool(same) and bool(opp) and not same[-1] and not opp[-1], rule='K5', expected='general leaf reached when neither the parallel nor the antiparallel test holds',
